@@ -103,6 +103,20 @@ Definition is_reg (s : stat) : bool := N.eqb (unix_type_of_gomode (st_mode s)) S
 Definition group_rep (s : stat) : bytes :=
   match st_linkname s with [] => st_path s | l => l end.
 
+(* the xattr clause of the statement speaks of "every regular file ... the transfer CREATED": for a
+   hard-link entry (a further name of an inode) that is the case only when the inode itself was
+   created by this transfer, i.e. when the first name of its group was — a new name for a file
+   that stays in place shows that file's xattrs, which the property does not claim
+   (corpus/C01: stale-xattrs-on-new-hardlink).  For every other entry: created_by_transfer. *)
+Definition inode_created (prior src : list entry) (s : stat) : bool :=
+  created_by_transfer prior s &&
+  (if is_reg s then
+     match st_linkname s with
+     | [] => true
+     | l => match find_entry l src with Some (t, _) => created_by_transfer prior t | None => false end
+     end
+   else true).
+
 Definition links_ok (src : list entry) (dest : list raw) : bool :=
   let regs := filter (fun e => is_reg (fst e)) src in
   forallb (fun e1 => forallb (fun e2 =>
@@ -190,7 +204,7 @@ Definition prior_unchanged_o (ps : stat) (content : bytes) (d : obs) : bool :=
 Definition converged_o (merge : bool) (prior src : list entry) (dest : list obs) : bool :=
   (* every source entry is there and equal *)
   forallb (fun e => match find_obs (st_path (fst e)) dest with
-                    | Some d => entry_matches_o (created_by_transfer prior (fst e)) (fst e) (snd e) d
+                    | Some d => entry_matches_o (inode_created prior src (fst e)) (fst e) (snd e) d
                     | None => false end) src
   (* nothing else is there, except (merge) untouched prior entries *)
   && forallb (fun d => match find_entry (o_path d) src with
@@ -238,7 +252,7 @@ Definition link_partition (src : list entry) (dest : list obs) : Prop :=
 Definition approx (prior src : list entry) (dest : list obs) : Prop :=
   same_paths src dest
   /\ (forall s c, In (s, c) src ->
-        exists d, find_obs (st_path s) dest = Some d /\ entry_ok (created_by_transfer prior s) s c d)
+        exists d, find_obs (st_path s) dest = Some d /\ entry_ok (inode_created prior src s) s c d)
   /\ link_partition src dest.
 
 Definition prior_ok (ps : stat) (content : bytes) (d : obs) : Prop :=
@@ -254,7 +268,7 @@ Definition prior_ok (ps : stat) (content : bytes) (d : obs) : Prop :=
    covers with a non-directory; and every such prior entry is still there *)
 Definition approx_merge (prior src : list entry) (dest : list obs) : Prop :=
   (forall s c, In (s, c) src ->
-        exists d, find_obs (st_path s) dest = Some d /\ entry_ok (created_by_transfer prior s) s c d)
+        exists d, find_obs (st_path s) dest = Some d /\ entry_ok (inode_created prior src s) s c d)
   /\ (forall d, In d dest ->
         (exists e, In e src /\ st_path (fst e) = o_path d) \/
         (kept_in_merge src (o_path d) = true /\
@@ -295,7 +309,7 @@ Definition entry_mismatch (created : bool) (s : stat) (content : bytes) (d : raw
 
 Definition converged_diag (merge : bool) (prior src : list entry) (dest : list raw) : list sx :=
   flat_map (fun e => match find_raw (st_path (fst e)) dest with
-                     | Some d => let c := entry_mismatch (created_by_transfer prior (fst e)) (fst e) (snd e) d in
+                     | Some d => let c := entry_mismatch (inode_created prior src (fst e)) (fst e) (snd e) d in
                                  if N.eqb c 0 then [] else [SL [SB (st_path (fst e)); SN c]]
                      | None => [SL [SB (st_path (fst e)); SN 100]] end) src
   ++ flat_map (fun d => match find_entry (r_path d) src with
